@@ -35,7 +35,7 @@ FAMILIES = {
     # task trees in which several containers complete in the same pass (containers of dated milestones)
     "mstrees": dict(window=0.4, milestone=0.6, pin=0.7, nest=0.9, depth=3, ntasks=(4, 10), dep=0.2, contdep=0.1, dupid=0.2),
     # equal local ids in different containers, many 'precedes': edges between like-named tasks
-    "dupprec": dict(dupid=0.95, nest=0.85, depth=2, precedes=0.6, dep=0.8, rel=0.5, ntasks=(4, 9), gap=[0, 0, 60, 120], contdep=0.1),
+    "dupprec": dict(topdup=0.5, dupid=0.95, nest=0.85, depth=2, precedes=0.6, dep=0.8, rel=0.5, ntasks=(4, 9), gap=[0, 0, 60, 120], contdep=0.1),
     # the dialect of Model/SubSlot.v: one resource per task, no limits; efforts, efficiencies and gaps arbitrary
     "sd": dict(G=[3600, 3600, 1800, 900], efforts=[7, 10, 20, 25, 45, 50, 90, 100, 135, 200, 61, 119, 60, 120],
                effs=["1.0", "1.0", "0.5", "0.7", "1.5", "2.0", "0.9", "1.3"], nres=(1, 3), ntasks=(2, 8),
@@ -55,7 +55,7 @@ FAMILIES = {
     "midslot": dict(midslot=0.8, rbook=0.5, book_units=[(90, "90min"), (30, "30min"), (150, "150min"), (45, "45min"), (210, "210min")],
                     efforts=[60, 120, 180, 240, 480, 90], ntasks=(1, 3), nres=(1, 2), dep=0.3, prio=0.5, rleave=0.0, vac=0.0, gleave=0.0,
                     G=[3600, 3600, 1800], dur=[("w", 2)], midvac=0.4),
-    "deps": dict(dupid=0.4, nest=0.6, depth=3, dep=0.8, precedes=0.3, rel=0.5, contdep=0.5, contstart=0.3, onstart=0.25, pin=0.15,
+    "deps": dict(topdup=0.3, dupid=0.4, nest=0.6, depth=3, dep=0.8, precedes=0.3, rel=0.5, contdep=0.5, contstart=0.3, onstart=0.25, pin=0.15,
                  gap=[0, 60, 120, 480, 1440, 90, 30, 2880, 10080], ntasks=(3, 9), hours=0.2),
     "coredeps": dict(dupid=0.3, nest=0.6, depth=3, dep=0.8, precedes=0.3, rel=0.5, contdep=0.5, contstart=0.3, onstart=0.25, pin=0.15,
                      gap=[0, 60, 120, 480, 1440, 2880, 10080], ntasks=(3, 9), rdaily=0.2, team=0.2, G=[3600, 3600, 1800]),
@@ -104,8 +104,13 @@ FAMILIES = {
     "alapsub": dict(alap=1.0, nres=(1, 1), ntasks=(3, 6), efforts=[20, 30, 45, 60, 90, 100, 150], dep=0.15, gap=[0, 0, 30], onstart=0.0, pin=0.0,
                     milestone=0.0, prio=0.9, rleave=0.0, vac=0.0, gleave=0.0, dur=[("d", 3), ("d", 5)]),
     "taskalap": dict(taskalap=0.5, dep=0.4, onstart=0.0, pin=0.0, efforts=[60, 120, 240, 90], ntasks=(1, 5), milestone=0.0),
-    "trees": dict(group=0.5, galloc=0.2, dupid=0.3, contstart=0.3, nest=0.8, depth=4, ntasks=(3, 10), dep=0.3, milestone=0.15, pin=0.15, contdep=0.3, unsched=0.3),
+    "trees": dict(topdup=0.3, group=0.5, galloc=0.2, dupid=0.3, contstart=0.3, nest=0.8, depth=4, ntasks=(3, 10), dep=0.3, milestone=0.15, pin=0.15, contdep=0.3, unsched=0.3),
     # nested containers with windows of their own and leaves that cannot be scheduled
+    # containers with a window of their own whose last child ends earlier, and tasks that depend on such a container
+    # calendars of their own on resources of projects that begin at a time of day (06:00, 13:00, ...)
+    "hoursmid": dict(midstart=0.9, hours=0.8, shift=0.3, tz=0.2, xmid=0.3, rleave=0.2, vac=0.2, efforts=[120, 480, 960, 1440], ntasks=(2, 5), nres=(1, 3),
+                     G=[3600, 3600, 1800, 900], dur=[("w", 2), ("w", 4)]),
+    "windeps": dict(contwindow=0.7, contstart=0.1, nest=0.85, depth=3, ntasks=(3, 8), dep=0.3, contdep=0.7, milestone=0.05, pin=0.05, nres=(1, 3)),
     "wintrees": dict(contwindow=0.5, contstart=0.2, nest=0.85, depth=3, ntasks=(3, 8), dep=0.2, milestone=0.1, pin=0.1, unsched=0.8, nres=(1, 2)),
 }
 
@@ -281,10 +286,13 @@ def gen(rng, cfg):
         if rng.random() < cfg["rbook"]:
             # a blocking booking of the resource: calendar time from a date, in every unit the grammar knows
             a = day0 + rng.randint(0, 9) * 86400 + rng.choice([0, 9, 11, 13]) * 3600
-            mins, txt = rng.choice(cfg.get("book_units") or [(120, "2h"), (360, "6h"), (90, "90min"), (1440, "1d"), (2880, "2d"), (10080, "1w"), (20160, "2w"), (30.4167 * 1440, "1m")])
+            mins, txt = rng.choice(cfg.get("book_units") or [(120, "2h"), (360, "6h"), (90, "90min"), (1440, "1d"), (2880, "2d"), (10080, "1w"), (20160, "2w"), (30.4167 * 1440, "1m"),
+                                                               (150, "2.5h"), (270, "4.5h"), (720, "0.5d"), (2160, "1.5d")])
             r["bookings"] = [(a, mins, txt)]
         if rng.random() < cfg["rdaily"]:
             r["dailymax"] = rng.choice([60, 120, 240, 360]) if G <= 3600 else 120
+            if G <= 1800 and rng.random() < 0.4:
+                r["dailymax"] = rng.choice([30, 90, 150, 210])          # limits that are no whole number of hours
         if rng.random() < cfg["rweekly"]:
             r["weeklymax"] = rng.choice([240, 480, 960, 1200])
         leaves_r.append(r)
@@ -325,7 +333,7 @@ def gen(rng, cfg):
         i = counter[0]
         counter[0] += 1
         n = {"id": f"t{i}"}
-        if path_prefix and rng.random() < cfg["dupid"]:
+        if (path_prefix and rng.random() < cfg["dupid"]) or (not path_prefix and "topdup" in cfg and rng.random() < cfg["topdup"]):
             # local ids may repeat in different containers (siblings stay unique)
             k = local.get(path_prefix, 0)
             local[path_prefix] = k + 1
